@@ -37,7 +37,7 @@ THEOREMS = ["Tx3.Cbor.beNat_natToBytes", "Tx3.Wire.C11_int128_roundtrip", "Tx3.W
             "Tx3.Wire.C11_tx_roundtrip", "Tx3.Cbor.readItem_encode", "Tx3.Cbor.decode_encode", "Tx3.Cbor.wfb_all",
             "Tx3.Wire.C11_wire_roundtrip", "Tx3.Wire.C11_too_deep", "Tx3.Wire.C11_bytes_injective"]
 RULE = (
-    "cases = IR values: every transaction lowered from /repo/examples/*.tx3 and from 30 generated programs; random IR "
+    "cases = IR values: every transaction lowered from /repo/examples/*.tx3, from the coverage-driven corpus (frontp::extra_corpus) and from 30 generated programs; random IR "
     "trees (every expression and block variant, depth 1..6, parameters/inputs/fees/compiler ops, boundary integers, a "
     "malformed tail), half of them after apply_inputs so that UTxO sets occur; version names: the known, retired and "
     "near-miss ones, names of every length up to 80, a 2- or 4-byte character at every position of a 64-character name "
